@@ -1,0 +1,33 @@
+//! Verification hooks (feature `verif`). Off by default; nothing here is used by the crate itself
+//! except the three override getters.
+#![allow(missing_docs)]
+
+use std::sync::atomic::{AtomicU64, AtomicUsize, Ordering};
+
+// ---- H1: clock -------------------------------------------------------------------------------
+static CLOCK: AtomicU64 = AtomicU64::new(0);
+/// Set the clock override in microseconds since the epoch (0 = real clock).
+pub fn set_clock(micros: u64) {
+    CLOCK.store(micros, Ordering::SeqCst);
+}
+pub(crate) fn clock_override() -> Option<u64> {
+    match CLOCK.load(Ordering::SeqCst) {
+        0 => None,
+        t => Some(t),
+    }
+}
+
+// ---- H2: reconciliation parameters ------------------------------------------------------------
+static SPLIT: AtomicUsize = AtomicUsize::new(0);
+static MAXSET: AtomicUsize = AtomicUsize::new(0);
+pub fn set_sync_config(split_factor: usize, max_set_size: usize) {
+    SPLIT.store(split_factor, Ordering::SeqCst);
+    MAXSET.store(max_set_size, Ordering::SeqCst);
+}
+pub(crate) fn sync_config_override() -> Option<(usize, usize)> {
+    match (SPLIT.load(Ordering::SeqCst), MAXSET.load(Ordering::SeqCst)) {
+        (0, _) | (_, 0) => None,
+        c => Some(c),
+    }
+}
+
